@@ -1,7 +1,9 @@
 """C17 - hash sorting groups equal items and its searches agree with a linear scan.
 tie: T-gen (cxx2coq on HashSorter::pvMultShift/pvGetStepCount/pvCompare) + T-cor (hand models SorterSearch.v / SorterSort.v instantiated
 with the generated leaves, extracted, run against the real HashSorter incl. read traces) + verified checker on real Sort output."""
-import os, itertools
+import os, itertools, collections
+
+EV = collections.Counter()      # measured events (filled by the oracle from the real code's outputs)
 
 GEN = ['gen_leaves.json']
 M64 = 2 ** 64 - 1
@@ -78,6 +80,12 @@ def gen_leaves(ctx, scale):
         cases.append('SC %d' % a)
         for b in (r.choice(edge), r.below(2 ** 64), M64, 1, a):
             cases.append('MS %d %d' % (a, b)); cases.append('MS %d %d' % (b, a)); cases.append('CMP %d %d' % (a, b)); cases.append('CMP %d %d' % (b, a))
+    for W in (8, 16, 32, 64):
+        lim = 2 ** (W - 1)
+        for x in sorted(set([-lim, -lim + 1, -2, -1, 0, 1, 2, lim - 2, lim - 1] + [r.range(-lim, lim - 1) for _ in range(40)])):
+            cases.append('SCODE %d %d' % (W, x))
+        for x in sorted(set([0, 1, lim - 1, lim, lim + 1, 2 * lim - 1] + [r.below(2 * lim) for _ in range(20)])):
+            cases.append('UCODE %d %d' % (W, x))
     for _ in range(3000 * scale):
         k1 = r.range(0, 64); k2 = r.range(0, 64)
         a = r.below(2 ** k1) if k1 else 0; b = r.below(2 ** k2) if k2 else 0
@@ -104,6 +112,39 @@ def gen_small(ctx, maxlen):
                             cases.append(line(op, var, pairs, q))
                     if hk == 'ident':
                         cases.append(line('F', var, pairs, (M64, 9))); cases.append(line('B', var, pairs, (M64, 9)))
+    return cases
+
+def gen_coarse(ctx, maxlen):
+    """equalFunc coarser than identity: items 0..3, equal iff id//2 equal (equal but distinguishable items); variant letters P/H.
+    ALL sequences of length 0..maxlen over the 4 ids x {one hash for everything, hash by class}"""
+    cases = []; sorts = []; hs = []
+    for hk, H in (('const', lambda c: 7), ('byclass', lambda c: (3, M64, 2 ** 63)[c])):
+        for n in range(0, maxlen + 1):
+            for seq in itertools.product((0, 1, 2, 3), repeat=n):
+                pairs = [(H(x // 2), x) for x in seq]
+                var = 'P' if (n + len(cases)) % 2 else 'H'
+                cases.append(line('S', var, pairs))
+                for qi in (0, 1, 2, 3, 5):
+                    q = (H(qi // 2), qi)
+                    cases.append(line('F', var, pairs, q)); cases.append(line('B', var, pairs, q))
+                sorts.append(line('SORT', var, pairs)); hs.append(line('HSORT', var, pairs))
+    return cases, sorts, hs
+
+def gen_aimed_jumps(ctx, scale):
+    """pvFindHash interpolation jumps that land EXACTLY on an interval end (forward jump == rightIndex incl. == count,
+    backward jump == leftIndex): a block of equal small hashes followed by large ones, searched around 2^63 / 2^62 / 3*2^62"""
+    r = ctx.rng; cases = []
+    for n in (64, 65, 66, 96, 127, 128, 200, 1000) + ((4096, 4097) if scale > 1 else (4096,)):
+        for a in sorted(set([n // 2 - 1, n // 2, n // 2 + 1, n // 4, n // 4 + 1, 3 * n // 4, 3 * n // 4 + 1, n - 1, n, 1])):
+            for lowv, highv in ((0, M64), (0, 2 ** 63 + 5), (1, M64 - 1)):
+                hashes = [lowv] * a + [highv] * (n - a)
+                pairs = [(h, i // 3) if h == lowv else (h, 10 ** 6 + i // 3) for i, h in enumerate(hashes)]
+                for qh in (2 ** 63, 2 ** 63 - 1, 2 ** 63 + 1, 2 ** 62, 3 * 2 ** 62, 2 ** 63 + 5, M64 - 1, 1):
+                    q = (qh, 10 ** 9 + 1)
+                    for (h, x) in pairs:
+                        if h == qh: q = (qh, x); break
+                    var = 'p' if (a + n) % 2 else 'h'
+                    cases.append(line('FH', var, pairs, q)); cases.append(line(r.choice(['F', 'B']), var, pairs, q))
     return cases
 
 def rand_valid_array(r, n, kind):
@@ -239,6 +280,14 @@ def gen_radix(ctx, scale, narrow):
                     else: vals = [r.below(2 ** W)] * n
                     cases.append('RADIX %d %d %d %s' % (R, W, n, ' '.join(map(str, vals))))
         if not narrow:
+            for n in (3, T + 1, 2 * T + 5):     # bool and plain char arrays
+                cases.append('RADIXI %d 1 %d %s' % (R, n, ' '.join(str(r.below(2)) for _ in range(n))))
+                cases.append('RADIXI %d 7 %d %s' % (R, n, ' '.join(str(r.range(-128, 127)) for _ in range(n))))
+            for W in (8, 16, 32, 64):     # SIGNED element types (negative values)
+                for n in (3, T + 1, 2 * T + 5):
+                    lim = 2 ** (W - 1)
+                    vals = [r.range(-min(lim, 1000), min(lim - 1, 1000)) if r.chance(1, 2) else r.range(-lim, lim - 1) for _ in range(n)]
+                    cases.append('RADIXI %d %d %d %s' % (R, W, n, ' '.join(map(str, vals))))
             for n in (0, 1, 2, 3, T, T + 1, 3 * T + 1):
                 cases.append('RADIXP %d %d %s' % (R, n, ' '.join(str(r.below(65536 if r.chance(1, 2) else 40)) for _ in range(n))))
     return cases
@@ -285,8 +334,12 @@ def gen_sorttrace(ctx, scale, maxlen):
 def sorttrace_oracle(ctx, c, out):
     w = c.split()
     if out.startswith('OOB'): return 'Sort read/wrote outside the array'
-    if w[0] == 'HSORT': n = int(w[2]); nums = list(map(int, w[3:])); g = 1
-    else: n = int(w[4]); nums = list(map(int, w[5:])); g = int(w[3])
+    if out.startswith('SELFSWAP'): return 'Sort called iterSwapper(i, i) (self-swap: fatal for self-move-hostile items)'
+    coarse = False
+    if w[0] == 'HSORT': n = int(w[2]); nums = list(map(int, w[3:])); g = 1; coarse = w[1] in ('P', 'H'); EV['HSORT %s' % w[1]] += 1
+    else:
+        n = int(w[4]); nums = list(map(int, w[5:])); g = int(w[3]); T = 2 ** (int(w[1]) // 2 + 1)
+        EV['RSORT R=%s W=%s %s' % (w[1], w[2], 'selection' if 2 < n <= T else 'radix' if n > T else 'n<=2')] += 1
     pairs = [(nums[2 * i], nums[2 * i + 1]) for i in range(n)]
     try:
         on = list(map(int, out.split('|')[0].split()))
@@ -295,6 +348,7 @@ def sorttrace_oracle(ctx, c, out):
         return 'unparsable output %r' % out[:80]
     if sorted(pairs) != sorted(outp): return 'Sort output is not a permutation of the input (code,item) pairs'
     if not is_hash_sorted(outp): return 'Sort output codes are not non-decreasing'
+    if coarse: outp = [(h, x // 2) for (h, x) in outp]
     if g and not sorted_spec(outp): return 'Sort output: equal items are not contiguous inside a code run'
     if n >= 3: ctx.nontrivial.add(c)
     return None
@@ -307,8 +361,12 @@ def radix_oracle(ctx, c, out):
         got = list(map(int, body.split()))
     except ValueError:
         return 'unparsable output %r' % out[:80]
-    vals = list(map(int, w[4:])) if w[0] == 'RADIX' else list(map(int, w[3:]))
+    vals = list(map(int, w[4:])) if w[0] in ('RADIX', 'RADIXI') else list(map(int, w[3:]))
     exp = sorted(vals)
+    EV['radix R=%s %s' % (w[1], 'W=' + w[2] if w[0] != 'RADIXP' else 'pointers') + (' signed' if w[0] == 'RADIXI' else '')] += 1
+    if w[0] != 'RADIXP':
+        T = 2 ** (int(w[1]) // 2 + 1); n_ = len(vals)
+        EV['radix size vs selection threshold: ' + ('n<=2' if n_ <= 2 else 'n<T' if n_ < T else 'n==T' if n_ == T else 'n==T+1' if n_ == T + 1 else 'n>T+1')] += 1
     if got != exp: return 'RadixSorter<%s> output is not the sorted input (first difference at %d)' % (w[1], next((i for i in range(min(len(got), len(exp))) if got[i] != exp[i]), -1))
     if w[0] == 'RADIX':
         runs = []; i = 0
@@ -332,10 +390,17 @@ def parse_case(c):
 def oracle_one(ctx, c, out):
     """returns None or a description of the violation; the property predicate evaluated on the real code's output"""
     w = c.split()
-    if w[0] in ('RADIX', 'RADIXP'):
+    if w[0] in ('RADIX', 'RADIXP', 'RADIXI'):
         return radix_oracle(ctx, c, out)
+    if w[0] == 'BIGFIND':
+        EV['BIGFIND ' + ' '.join(out.split()[1:2])] += 1
+        return None if out.split()[-1:] == ['ok'] and not out.startswith('OOB') else 'BIGFIND: Find/GetBounds differ from the linear scan: ' + out[:200]
     if w[0] in ('HSORT', 'RSORT'):
         return sorttrace_oracle(ctx, c, out)
+    if w[0] in ('SCODE', 'UCODE'):
+        W = int(w[1]); x = int(w[2]); EV['code getter %s W=%d' % (w[0], W)] += 1
+        exp = x + 2 ** (W - 1) if w[0] == 'SCODE' else x
+        return None if out.strip() == str(exp) else 'RadixSorterCodeGetter(%d-bit %s %d) = %s, order-preserving code is %d' % (W, 'signed' if w[0] == 'SCODE' else 'unsigned', x, out, exp)
     if w[0] in ('MS', 'SC', 'CMP'):
         a = int(w[1]); b = int(w[2]) if len(w) > 2 else 0
         try: v = int(out)
@@ -350,6 +415,14 @@ def oracle_one(ctx, c, out):
         return None
     op, var, pairs, rest = parse_case(c)
     n = len(pairs)
+    coarse = var in ('P', 'H')
+    opairs = pairs
+    if coarse:      # equalFunc = "same id//2": evaluate the linear-scan predicates on the classes
+        pairs = [(h, x // 2) for (h, x) in pairs]
+    EV['%s %s' % (op, var)] += 1
+    if op in ('FH', 'F', 'B'):
+        EV['search: pvGetStepCount=%d' % (0 if n < 64 else 1 if n < 4096 else 2 if n < 2 ** 22 else 3)] += 1
+        EV['search: count ' + ('0' if n == 0 else '1' if n == 1 else '2..6' if n <= 6 else '7..63' if n < 64 else '64' if n == 64 else '65..4095' if n < 4096 else '4096' if n == 4096 else '>4096')] += 1
     if out.startswith('OOB'):
         return 'the real code read an index outside [0,%d) (or wrote a guard slot)' % n
     try:
@@ -363,7 +436,7 @@ def oracle_one(ctx, c, out):
         if n >= 3: ctx.nontrivial.add(c)
         return None
     if op in ('FH', 'F', 'B'):
-        q = (rest[0], rest[1])
+        q = (rest[0], rest[1] // 2 if coarse else rest[1])
         if op == 'FH':
             if not is_hash_sorted(pairs): return None
             k, f = vals
@@ -380,11 +453,13 @@ def oracle_one(ctx, c, out):
         if len(run) >= 2 or n >= 64: ctx.nontrivial.add(c)
         if op == 'F':
             k, f = vals
+            EV['Find: ' + ('found' if f else 'not found') + (', hash run with >= 2 different items' if len(run) >= 2 else '')] += 1
             if bool(f) != bool(idx): return 'Find found=%d, linear scan finds %s' % (f, idx[:3])
             if f and k not in idx: return 'Find returned index %d which does not hold the item' % k
             if not (0 <= k <= n): return 'Find iterator %d outside [0,%d]' % (k, n)
             return None
         b, e = vals
+        EV['GetBounds: ' + ('empty' if b == e else 'one item' if e - b == 1 else 'several items')] += 1
         if idx:
             if (b, e) != (idx[0], idx[-1] + 1): return 'GetBounds [%d,%d), linear scan [%d,%d)' % (b, e, idx[0], idx[-1] + 1)
         elif not (b == e and 0 <= b <= n): return 'GetBounds [%d,%d) for an absent item' % (b, e)
@@ -394,9 +469,11 @@ def oracle_one(ctx, c, out):
         nums = list(map(int, body.split()))
         outp = [(nums[3 * i], nums[3 * i + 1]) for i in range(n)]
         tags = [nums[3 * i + 2] for i in range(n)]
+        EV['Sort path: ' + ('n<=2' if n <= 2 else 'selection sort (3..32)' if n <= 32 else 'radix sort (>32)')] += 1
         if sorted(tags) != list(range(n)): return 'Sort output is not a permutation of the input (tags %s)' % tags[:10]
         for i in range(n):
-            if pairs[tags[i]] != outp[i]: return 'Sort: item/hash at position %d does not match its origin (hash array out of step)' % i
+            if opairs[tags[i]] != outp[i]: return 'Sort: item/hash at position %d does not match its origin (hash array out of step)' % i
+        if coarse: outp = [(h, x // 2) for (h, x) in outp]
         if not sorted_spec(outp): return 'Sort output is not hash-sorted with equal items contiguous'
         if int(flag) != 1: return 'IsSorted is false on the output of Sort'
         if n >= 3: ctx.nontrivial.add(c)
@@ -457,17 +534,28 @@ def run(ctx):
         ctx.stage('build-harness', False, getattr(ctx, 'last_cxx_error', ''))
         return ctx.finish(rule=RULE)
     leaves = gen_leaves(ctx, scale)
+    codeg = [c for c in leaves if c.startswith(('SCODE', 'UCODE'))]
+    leaves = [c for c in leaves if not c.startswith(('SCODE', 'UCODE'))]
     small = gen_small(ctx, maxlen)
     longc = gen_long(ctx, scale)
     sorts = gen_sort(ctx, scale, maxlen)
+    co_cases, co_sorts, co_hs = gen_coarse(ctx, 5 if ctx.quick() else 6)
+    small = small + co_cases
+    sorts = sorts + co_sorts
+    longc = longc + gen_aimed_jumps(ctx, scale)
+    big = ['BIGFIND %d %d %s' % (n_, sd, kd) for (n_, sd, kd) in
+           ([(2 ** 22, 1, 'uniform'), (2 ** 22 + 1, 2, 'skew')] if ctx.quick() else
+            [(2 ** 22 - 1, 5, 'uniform'), (2 ** 22, 1, 'uniform'), (2 ** 22 + 1, 2, 'skew'), (2 ** 22 + 77, 3, 'low'), (2 ** 23 + 3, 4, 'uniform')])]
     # ---- oracle on the real code (always) ----
     bad = []
-    for name, cs in (('oracle-leaves', leaves), ('oracle-small', small), ('oracle-long', longc)):
+    for name, cs in (('oracle-leaves', leaves), ('oracle-small', small), ('oracle-long', longc), ('oracle-big', big)):
         b, _ = run_oracle(ctx, harness, cs, name); bad += b
     b, sort_out = run_oracle(ctx, harness, sorts, 'oracle-sort'); bad += b
     radix = gen_radix(ctx, scale, False)
     b, _ = run_oracle(ctx, hradix, radix, 'oracle-radix'); bad += b
+    b, _ = run_oracle(ctx, hradix, codeg, 'oracle-codegetter'); bad += b
     st_hs, st_rs = gen_sorttrace(ctx, scale, maxlen)
+    st_hs = st_hs + co_hs
     b, _ = run_oracle(ctx, harness, st_hs, 'oracle-sorttrace-hs'); bad += b
     b, _ = run_oracle(ctx, hradix, st_rs, 'oracle-sorttrace-radix'); bad += b
     # radix size wider than the code type (R > 8*sizeof(Code)): the first shift used to wrap around (fixed in /repo bb23c06);
@@ -491,21 +579,24 @@ def run(ctx):
             op, var, pairs, _ = parse_case(c)
             if len(pairs) <= 130 and '|' in out and not out.startswith('OOB'):
                 nums = out.split('|')[0].split()
-                outp = ' '.join('%s %s' % (nums[3 * i], nums[3 * i + 1]) for i in range(len(pairs)))
-                chk.append(' '.join(('CHK ' + c[5:] + ' ' + outp).split()))
+                div = 2 if var in ('P', 'H') else 1      # coarse equality: the checker works on the classes id//2
+                inp = ' '.join('%d %d' % (h, x // div) for (h, x) in pairs)
+                outp = ' '.join('%s %d' % (nums[3 * i], int(nums[3 * i + 1]) // div) for i in range(len(pairs)))
+                chk.append('CHK %s %d %s %s' % (var.lower(), len(pairs), inp, outp))
         for name, cs, hx in (('leaves', leaves, harness), ('small', small, harness), ('long', longc, harness), ('sort-check', chk, harness),
-                             ('sort-trace-hashsorter', st_hs, harness), ('sort-trace-radixsorter', st_rs, hradix)):
+                             ('sort-trace-hashsorter', st_hs, harness), ('sort-trace-radixsorter', st_rs, hradix), ('code-getter', codeg, hradix)):
             mism, _ = ctx.correspond(name, cs, [hx], [ctx.model_exe])
             ctx.tie_obligations.append({'name': 'model == real code on %d %s cases (results + read traces)' % (len(cs), name), 'ok': not mism})
             mism.sort(key=lambda t: len(t[1]))
             for (i, c, a, b) in mism[:2]:
                 ctx.violation('model and implementation disagree (%s)' % name, {'case': c, 'impl': a[:2000], 'model': b[:2000],
                               'cmd': 'echo "<case>" | build/C17/harness'}, found_input=True)
-    allc = leaves + small + longc + sorts + radix + narrow + st_hs + st_rs
+    allc = leaves + small + longc + sorts + radix + narrow + st_hs + st_rs + big + codeg
     for c in (small[len(small) // 2], small[-1], longc[0], sorts[len(sorts) // 3], leaves[5]):
         ctx.add_sample(c[:300])
-    ctx.coverage['input_distribution'] = {k: sum(1 for c in allc if c.startswith(k + ' ')) for k in ('MS', 'SC', 'CMP', 'FH', 'F', 'B', 'S', 'SORT', 'RADIX', 'RADIXP', 'HSORT', 'RSORT')}
-    ctx.coverage['max_array_length'] = max(int(c.split()[2]) for c in longc + sorts)
+    ctx.coverage['input_distribution'] = {k: sum(1 for c in allc if c.startswith(k + ' ')) for k in ('MS', 'SC', 'CMP', 'FH', 'F', 'B', 'S', 'SORT', 'RADIX', 'RADIXP', 'RADIXI', 'HSORT', 'RSORT', 'BIGFIND', 'SCODE', 'UCODE')}
+    ctx.coverage['input_distribution'].update({'measured: ' + k: v for k, v in sorted(EV.items())})
+    ctx.coverage['max_array_length'] = max([int(c.split()[2]) for c in longc + sorts] + [int(c.split()[1]) for c in big])
     ctx.coverage['radix'] = 'RadixSorter<1..16> x codes of 8/16/32/64 bits x sizes around the selection-sort threshold 2^(R/2+1) + pointers; std sorted() oracle + groupFunc-call oracle'
     return ctx.finish(rule=RULE)
 
